@@ -504,6 +504,9 @@ func c02Check(ci interface{}) Verdict {
 	if splitPara {
 		ls = append(ls, "flow-over-pages")
 	}
+	if strings.Contains(c.HTML, "position:fixed") {
+		ls = append(ls, "fixed")
+	}
 	for _, k := range []string{"table", "float", "abspos", "inline-block", "footnote", "columns", "list", "flex", "grid"} {
 		if strings.Contains(c.HTML, map[string]string{"table": "<table", "float": "float:left", "abspos": "position:absolute", "inline-block": "inline-block", "footnote": "float:footnote", "columns": "columns:2", "list": "<li>", "flex": "display:flex", "grid": "display:grid"}[k]) || (k == "float" && strings.Contains(c.HTML, "float:right")) {
 			ls = append(ls, k)
@@ -535,8 +538,9 @@ func init() {
 		Rule: "Flow documents whose text is known by construction: every word is <flow><index>, numbered in document order inside its flow (main flow; own flows for table cells, table header/footer groups, floats, absolutely positioned boxes, inline-blocks, footnotes). Blocks (1-10, thorough 16; nesting <= 3): paragraphs of 1-40 words with inline boxes carrying margins/borders/padding, <br>, inline-blocks, white-space normal/nowrap/pre-wrap/pre-line, text-align, text-indent, relative positioning; nested containers (one in eight multi-column), ul/ol lists, tables (1-5 rows x 1-3 columns, optional thead/tfoot), left/right floats, absolutely positioned boxes, footnotes, column flex and grid containers; " +
 			"every box with drawn margin/padding/border, break-before/after/inside values (page, left, right, always, avoid), orphans/widows 1-4, box-decoration-break; no explicit heights. Page 40-200 x 20-200 px, margin 0-10, Ahem 10px/1 (a line is 10 px), optional :first/:left/margin-box/@footnote page rules; pango engine, go-text one case in six. " +
 			"Oracle (layout level): walking the pages in order and each page's box tree in document order, the indices met for each flow must be exactly 0..n-1 (nothing lost, duplicated or reordered); header/footer flows must be 1..#pages complete runs. Oracle (draw level): per page, the multiset of DrawText texts equals the multiset of the texts of the page's visible, non-blank text boxes (go-text: equal counts, as that engine leaves the text of a drawing empty). " +
+			"Fixed-position flows (1-2 words, explicitly positioned, one in three holding another fixed box): every word exactly once on every page. " +
 			"Non-trivial: >= 2 pages and at least one flow laid out over more than one page.",
-		ImportantLabels: []string{"pages>1", "flow-over-pages", "table", "float", "abspos", "inline-block", "footnote", "columns", "list", "orphans-widows", "forced-or-avoided-break", "break-inside-avoid", "group-repeated", "engine:gotext", "flex", "grid"},
+		ImportantLabels: []string{"fixed", "pages>1", "flow-over-pages", "table", "float", "abspos", "inline-block", "footnote", "columns", "list", "orphans-widows", "forced-or-avoided-break", "break-inside-avoid", "group-repeated", "engine:gotext", "flex", "grid"},
 		Assumptions:     []string{"crashes and hangs belong to C01 and are excluded", "running elements (another CSS-defined repetition) are not generated"},
 	})
 }
